@@ -4,7 +4,7 @@
 # ALL=1) with output redirected to a scratch dir, and print which checks caught it.
 # usage: tools/run_seeded.sh [id ...]
 set -u
-cd /verif
+cd "$(dirname "$0")/.." || exit 2
 SCR=${SCR:-/tmp/starsim-seeded}
 mkdir -p "$SCR"
 if ! git -C /repo diff --quiet; then echo "refusing: /repo has uncommitted changes"; exit 2; fi
@@ -15,7 +15,7 @@ for id in "${ids[@]}"; do
   [ -f "$d/patch.diff" ] || continue
   props=$(python3 -c "import json,sys; m=json.load(open('$d/meta.json')); print(' '.join(m.get('run_checks') or [m['property']]))")
   if [ "${ALL:-0}" = 1 ]; then props="C01 C02 C03 C04 C05 C06 C08 C09 C10 C11 C12 C13 C14 C15 C16 C17 C18"; fi
-  if ! git -C /repo apply "/verif/$d/patch.diff" 2>/dev/null; then echo "$id: PATCH DOES NOT APPLY"; continue; fi
+  if ! git -C /repo apply "$PWD/$d/patch.diff" 2>/dev/null; then echo "$id: PATCH DOES NOT APPLY"; continue; fi
   caught=""
   for p in $props; do
     out=$(VERIF_SCRATCH="$SCR" ./check "$p" "${TIER:-quick}" 2>&1); rc=$?
